@@ -66,7 +66,7 @@ PROPS = {
     },
     "C06": {
         "harness": "c06",
-        "quick": {"workers": 8, "cases": 800, "size": 16},
+        "quick": {"workers": 8, "cases": 3000, "size": 16},
         "thorough": {"workers": 16, "cases": 6000, "size": 22},
         "min_nontrivial_frac": 0.15,
         "rule": GEN_TA + "automata with <= 3 (thorough 4) states plus extra registered symbols, in the child's pristine global alphabet or a private OnTheFlyAlphabet; the alphabet S is read back "
@@ -76,7 +76,7 @@ PROPS = {
     },
     "C14": {
         "harness": "c14",
-        "quick": {"workers": 8, "cases": 2000, "size": 24},
+        "quick": {"workers": 8, "cases": 6000, "size": 24},
         "thorough": {"workers": 16, "cases": 20000, "size": 36},
         "min_nontrivial_frac": 0.2,
         "rule": GEN_TA + "automaton + total state map (identity / injective / merging / into sparse numbers) through ReindexStates(functor), ReindexStates(dst, functor, addFinalStates) into empty and "
@@ -86,7 +86,7 @@ PROPS = {
     },
     "C15": {
         "harness": "c15",
-        "quick": {"workers": 8, "cases": 2000, "size": 24},
+        "quick": {"workers": 8, "cases": 8000, "size": 24},
         "thorough": {"workers": 16, "cases": 20000, "size": 36},
         "min_nontrivial_frac": 0.2,
         "rule": GEN_TA + "automata extended by chains of unary/binary rules (deep shortest trees), unproductive final states, leaf-only languages, empty languages; GetCandidateTree's result must be "
@@ -147,7 +147,7 @@ PROPS = {
     },
     "C11": {
         "harness": "c11",
-        "quick": {"workers": 8, "cases": 1200, "size": 36, "min_records": 14},
+        "quick": {"workers": 8, "cases": 5000, "size": 36, "min_records": 14},
         "thorough": {"workers": 16, "cases": 12000, "size": 50, "min_records": 14},
         "min_nontrivial_frac": 0.3,
         "rule": "histories of 6-32 steps over <= 6 live ExplicitTreeAut and <= 4 live ExplicitFiniteAut handles: default-construct, build/load, copy-construct (all four copyTrans/copyFinal combinations), copy-assign (incl. self), "
@@ -160,7 +160,7 @@ PROPS = {
     },
     "C12": {
         "harness": "c12",
-        "quick": {"workers": 8, "cases": 2000, "size": 40, "min_records": 6},
+        "quick": {"workers": 8, "cases": 4000, "size": 40, "min_records": 6},
         "thorough": {"workers": 16, "cases": 20000, "size": 70, "min_records": 6},
         "min_nontrivial_frac": 0.3,
         "rule": "histories of AddTransition (5 states incl. a far one, 4 numeric symbols each used with arities 0-3, duplicates, re-adding an existing rule through both overloads), SetStateFinal, SetStatesFinal, EraseFinalStates, Clear on one "
